@@ -67,7 +67,7 @@ func cmdSelftest(args []string) int {
 				s2 := sc
 				s2.QuickRuns = runs
 				s2.QuickMs = 600000
-				results, dead := runWorkers(b, ps, s2, o, outDir, true, nil)
+				results, dead := runWorkers(b, ps, s2, o, outDir, true, loadKnown())
 				os.Unsetenv("VERIF_GOMAXPROCS")
 				if len(dead) > 0 {
 					fmt.Printf("determinism %s/%s cfg=%v: worker trouble: %v\n", id, sc.Name, c, dead)
